@@ -49,6 +49,10 @@ def ma2(s1, s2, k):
     return k * s1 * s2
 
 
+def ma3(s1, s2, s3, k):
+    return k * s1 * s2 * s3
+
+
 def mul2(a, b):
     return a * b
 
@@ -95,6 +99,14 @@ def base_model(c):
         m.add_reaction("vin", cin, args=["kin"], stoichiometry={"A": 1})
         m.add_reaction("v1", ma2, args=["A", "A", k1], stoichiometry={"A": -2, "B": 1})
         m.add_reaction("vout", ma1, args=["B", "k2"], stoichiometry={"B": -1})
+    elif net in ("trimer-baa", "trimer-aba", "trimer-aab"):
+        m.add_variables({"A": TOT["A"], "B": TOT["B"], "C": TOT["C"]})
+        m.add_reaction("vinA", cin, args=["kin"], stoichiometry={"A": 2})
+        m.add_reaction("vinB", cin, args=["k3"], stoichiometry={"B": 1})
+        order = {"trimer-baa": ["B", "A", "A"], "trimer-aba": ["A", "B", "A"], "trimer-aab": ["A", "A", "B"]}[net]
+        # the stoichiometry dict lists B first, the argument order varies
+        m.add_reaction("v1", ma3, args=[*order, k1], stoichiometry={"B": -1, "A": -2, "C": 1})
+        m.add_reaction("vout", ma1, args=["C", "k2"], stoichiometry={"C": -1})
     if opt == "unmapped":
         # a derived variable over a labelled compound, read by an unmapped reaction among unlabelled compounds
         m.add_variables({"U": TOT["U"], "W": TOT["W"]})
@@ -115,6 +127,8 @@ def identity_maps(c):
         return {"vinA": list(range(n["A"])), "vinB": list(range(n["B"])), "vout": list(range(n["C"]))}
     if net == "split":
         return {"vinC": list(range(n["C"])), "voutA": list(range(n["A"])), "voutB": list(range(n["B"]))}
+    if net.startswith("trimer"):
+        return {"vinA": list(range(2 * n["A"])), "vinB": list(range(n["B"])), "vout": list(range(n["C"]))}
     return {"vin": list(range(n["A"])), "vout": list(range(n["B"]))}
 
 
@@ -127,6 +141,8 @@ def v1_shape(c):
         return ["A", "B"], ["C"]
     if net == "split":
         return ["C"], ["A", "B"]
+    if net.startswith("trimer"):
+        return ["B", "A", "A"], ["C"]  # order of the stoichiometry dict, each unit of stoichiometry once
     return ["A", "A"], ["B"]
 
 
@@ -180,7 +196,8 @@ def maps_for(c, tier):
 def generate(tier):
     cases = []
     nets = [("chain", "none"), ("chain", "bystander"), ("chain", "derived"), ("chain", "unmapped"), ("merge", "none"),
-            ("merge", "derived"), ("split", "none"), ("split", "unmapped"), ("dimer", "none"), ("dimer", "derived")]
+            ("merge", "derived"), ("split", "none"), ("split", "unmapped"), ("dimer", "none"), ("dimer", "derived"),
+            ("trimer-baa", "none"), ("trimer-aba", "none"), ("trimer-aab", "derived")]
     counts = (1, 2) if tier == "quick" else (1, 2, 3)
     for net, opt in nets:
         if net == "chain":
@@ -191,6 +208,8 @@ def generate(tier):
         elif net == "split":
             ns = [{"A": a, "B": b, "C": a + b} for a in counts for b in counts if a + b <= 4]
             ns += [{"A": 1, "B": 1, "C": 3}, {"A": 2, "B": 2, "C": 3}]
+        elif net.startswith("trimer"):
+            ns = [{"A": 1, "B": 1, "C": 3}, {"A": 1, "B": 2, "C": 4}] + ([{"A": 1, "B": 1, "C": 2}] if tier == "thorough" else [])
         else:
             ns = [{"A": 1, "B": 2}, {"A": 2, "B": 4}, {"A": 1, "B": 1}, {"A": 2, "B": 2}] + ([{"A": 1, "B": 3}] if tier == "thorough" else [])
         for n in ns:
